@@ -18,6 +18,7 @@ RULE = ("(a) vector syntax on a full grid start x step x end of decimals (steps 
         "set, order class, error class); non-trivial = >= 3 options or a rejection case.")
 RULE += " " + 'Long -d lists on long series; tables WITHOUT -r (the printed automatic thresholds define the reference); -acc over an all-missing lead time; -T/-Tagg/-Tx on text inputs against trailing-window reference values; quantile bin semantics; shards rotate the process time zone.'
 RULE += " " + 'Rounds 9-10: -m obsfcst -q [-leg] tables in random option order.'
+RULE += " " + 'Rounds 13-14: an out-of-range quantile level at any position of the -q list (first, middle, last, descending range) is rejected.'
 ASSUMPTIONS = ["vector steps are >= 0.001 and values have <= 3 decimals (the docstring warns about round-off below 1e-4)",
                "the reference interpreter (vmon.refcli) encodes DESIGN.md appendix B"]
 REQUIRED_COUNTERS = ["vector_cases", "date_cases", "reject_inproc", "reject_subproc", "semantic_lines", "order_variants",
